@@ -186,3 +186,8 @@ def distribution(cases, obs):
             f = any(e[0] == "c" or (e[0] == "ret" and e[1]) for e in s)
             d["fired_updates" if f else "silent_updates"] += 1
     return d
+
+TECHNIQUE = 'Coq theorems over an executable scheduler model with an adversarial clock stream + differential correspondence (vm_compute) against the real schedulers'
+LEVEL_TEXT = "Machine-checked proof (Coq 8.16.1) that, for every interval, callback list, operation sequence and every clock behaviour between any two reads, the model's trace satisfies the firing oracle (fires only when >= interval elapsed, fires when > interval elapsed, never restarts without running every callback once in order; step schedulers fire on exactly every n-th update; the save condition answers true iff its scheduler fired). The model is tied to /repo by running the real TimeIntervalScheduler / StepIntervalScheduler / PeriodicSaveCondition under a scripted clock on generated cases and comparing traces inside Coq; the same oracle is evaluated on the implementation's traces."
+LEVEL_NOTE = 'Trusted: Coq kernel + vm_compute; the hand-written model (coq/Model/Sched.v); the scripted-clock runner; exact float arithmetic on dyadic ticks. The theorem is about the model; the code is tied to it only on the sampled cases.'
+DESIGN_REF = 'DESIGN.md §4 C15'
